@@ -352,6 +352,7 @@ var _ *openfgav1.Userset
 //@                              ==> e.weights == old(e.weights) && e.wildcards == old(e.wildcards)
 //@   ensures deps_kept: tupleCycleDependencies[nodeCycle] == old(tupleCycleDependencies[nodeCycle]) && (forall j int :: 0 <= j && j < len(tupleCycleDependencies[nodeCycle]) ==> tupleCycleDependencies[nodeCycle][j] == old(tupleCycleDependencies[nodeCycle][j]))
 //@   ensures deps_separated: sepDeps(tupleCycleDependencies)
+//@   ensures closed_deps: forall a string :: arr(tupleCycleDependencies[a]) == 0 || allocated(arr(tupleCycleDependencies[a]))
 //@   ensures graph_elems_kept: old(sepED(wg, tupleCycleDependencies)) && wg.edges != tupleCycleDependencies ==> (forall k string, i int :: 0 <= i && i < len(wg.edges[k]) ==> wg.edges[k][i] == old(wg.edges[k][i]))
 //@   ensures foreign_kept: forall s []*WeightedAuthorizationModelEdge, i int :: isold(s) && arr(s) != 0 && (forall b string :: arr(s) != arr(old(tupleCycleDependencies[b]))) ==> s[i] == old(s[i])
 //@   ensures foreign: forall s []*WeightedAuthorizationModelEdge :: isold(s) && arr(s) != 0 && (forall b string :: arr(s) != arr(old(tupleCycleDependencies[b]))) ==> (forall a string :: arr(s) != arr(tupleCycleDependencies[a]))
@@ -452,6 +453,7 @@ var _ *openfgav1.Userset
 //@   ensures range_e: err == nil ==> inRangeE()
 //@   ensures range_n: err == nil ==> inRangeN()
 //@   ensures deps_sep: sepDeps(tupleCycleDependencies)
+//@   ensures closed_deps: old(forall a string :: arr(tupleCycleDependencies[a]) == 0 || allocated(arr(tupleCycleDependencies[a]))) ==> (forall a string :: arr(tupleCycleDependencies[a]) == 0 || allocated(arr(tupleCycleDependencies[a])))
 //@   ensures graph_elems_kept: old(sepED(wg, tupleCycleDependencies)) && wg.edges != tupleCycleDependencies ==> (forall k string, i int :: 0 <= i && i < len(wg.edges[k]) ==> wg.edges[k][i] == old(wg.edges[k][i]))
 //@   ensures foreign_kept: forall s []*WeightedAuthorizationModelEdge, i int :: isold(s) && arr(s) != 0 && (forall b string :: arr(s) != arr(old(tupleCycleDependencies[b]))) ==> s[i] == old(s[i])
 //@   ensures foreign: forall s []*WeightedAuthorizationModelEdge :: isold(s) && arr(s) != 0 && (forall b string :: arr(s) != arr(old(tupleCycleDependencies[b]))) ==> (forall a string :: arr(s) != arr(tupleCycleDependencies[a]))
@@ -477,7 +479,7 @@ var _ *openfgav1.Userset
 //@ spec butNotKind(n *WeightedAuthorizationModelNode) bool = n.nodeType == OperatorNode && n.label == ExclusionOperator
 
 //@ func (*WeightedAuthorizationModelGraph).calculateNodeWeightFromTheEdges
-//@   props C04 C05
+//@   props C04 C05 C11 C06
 //@   closed_alloc
 //@   requires wg != nil && wg.nodes[nodeID] != nil && wfEdges(wg.edges[nodeID]) && tupleCycleDependencies != nil
 //@   requires wfDeps(wg, tupleCycleDependencies[nodeID]) && sepWildcards() && sepDeps(tupleCycleDependencies)
@@ -492,6 +494,7 @@ var _ *openfgav1.Userset
 //@   ensures graph_elems_kept: forall k string, i int :: 0 <= i && i < len(wg.edges[k]) ==> wg.edges[k][i] == old(wg.edges[k][i])
 //@   ensures inv_linked: linked(wg)
 //@   ensures inv_wild: sepWildcards()
+//@   ensures closed_deps: old(forall a string :: arr(tupleCycleDependencies[a]) == 0 || allocated(arr(tupleCycleDependencies[a]))) ==> (forall a string :: arr(tupleCycleDependencies[a]) == 0 || allocated(arr(tupleCycleDependencies[a])))
 //@   assumes inv_deps_wf: err == nil ==> depsWf(wg, tupleCycleDependencies)
 //@   ensures inv_deps_sep: err == nil ==> sepDeps(tupleCycleDependencies)
 //@   ensures inv_deps_ed: err == nil ==> sepED(wg, tupleCycleDependencies)
@@ -545,7 +548,9 @@ var _ *openfgav1.Userset
 //@ spec weightHop(e *WeightedAuthorizationModelEdge) bool = e.edgeType == TTUEdge || e.edgeType == DirectEdge
 
 //@ func (*WeightedAuthorizationModelGraph).calculateEdgeWeight
-//@   props C04 C05
+//@   -- (C11/C06: the wildcard lists and the order-independence of nodes on or behind tuple cycles rest on every pending cycle being
+//@   --  recorded and reported here)
+//@   props C04 C05 C11 C06
 //@   closed_alloc
 //@   requires wg != nil && edge != nil && edge.from != nil && edge.to != nil && tupleCycleDependencies != nil && wfPath(ancestorPath)
 //@   -- the representation invariant of the depth-first weight assignment (see calculateNodeWeight)
@@ -554,20 +559,25 @@ var _ *openfgav1.Userset
 //@   requires inv_deps: depsWf(wg, tupleCycleDependencies) && sepDeps(tupleCycleDependencies) && sepED(wg, tupleCycleDependencies)
 //@   requires inv_wild: sepWildcards()
 //@   requires inv_range: inRangeE() && inRangeN()
+//@   requires closed_deps: forall a string :: arr(tupleCycleDependencies[a]) == 0 || allocated(arr(tupleCycleDependencies[a]))
 //@   -- Preservation of the representation invariant by the part of this function that follows the descent (recording the edge as a
 //@   -- dependant of pending cycles, copying the target's weights). ASSUMED, not proved (see calculateNodeWeightFromTheEdges): the function
 //@   -- appends to dependency lists (fresh or in-place within capacity, never into an edge list or the path: sepED, pathSep), replaces
 //@   -- edge.weights by a fresh map whose values are the target's (+1 unless Infinite), and writes nothing else.
-//@   assumes path_kept: forall i int :: 0 <= i && i < len(ancestorPath) ==> ancestorPath[i] == old(ancestorPath[i])
-//@   assumes path_sep_kept: pathSep(wg, tupleCycleDependencies, ancestorPath)
+//@   ensures path_kept: forall i int :: 0 <= i && i < len(ancestorPath) ==> ancestorPath[i] == old(ancestorPath[i])
+//@   ensures foreign_kept: forall s []*WeightedAuthorizationModelEdge, i int :: isold(s) && arr(s) != 0 && arr(s) != arr(old(ancestorPath)) && (forall b string :: arr(s) != arr(old(tupleCycleDependencies[b]))) ==> s[i] == old(s[i])
+//@   ensures path_sep_kept: pathSep(wg, tupleCycleDependencies, ancestorPath)
+//@   ensures foreign: forall s []*WeightedAuthorizationModelEdge :: isold(s) && arr(s) != 0 && (forall b string :: arr(s) != arr(old(tupleCycleDependencies[b]))) ==> (forall a string :: arr(s) != arr(tupleCycleDependencies[a]))
 //@   ensures inv_linked: linked(wg)
 //@   assumes inv_wild: sepWildcards()
 //@   assumes inv_deps_wf: err == nil ==> depsWf(wg, tupleCycleDependencies)
-//@   assumes inv_deps_sep: err == nil ==> sepDeps(tupleCycleDependencies)
+//@   ensures inv_deps_sep: err == nil ==> sepDeps(tupleCycleDependencies)
+//@   ensures closed_deps: forall a string :: arr(tupleCycleDependencies[a]) == 0 || allocated(arr(tupleCycleDependencies[a]))
 //@   ensures inv_deps_ed: err == nil ==> sepED(wg, tupleCycleDependencies)
 //@   assumes inv_range_e: err == nil ==> inRangeE()
 //@   assumes inv_range_n: err == nil ==> inRangeN()
 //@   ensures edge_lists_kept: forall k string :: wg.edges[k] == old(wg.edges[k])
+//@   ensures graph_elems_kept: forall k string, i int :: 0 <= i && i < len(wg.edges[k]) ==> wg.edges[k][i] == old(wg.edges[k][i])
 //@   ensures error_is_sentinel: err != nil ==> wraps(err, ErrModelCycle) || wraps(err, ErrTupleCycle) || wraps(err, ErrInvalidModel)
 //@   -- self edge: a placeholder weight, the edge becomes a dependant of its own node, the node is reported as an open tuple cycle
 //@   ensures self_edge_placeholder: old(edge.from.uniqueLabel) == old(edge.to.uniqueLabel) && old(weightHop(edge)) ==> err == nil && len(result0) == 1 && result0[0] == old(edge.to.uniqueLabel)
@@ -584,15 +594,26 @@ var _ *openfgav1.Userset
 //@   ensures keys_copied: old(edge.from.uniqueLabel) != old(edge.to.uniqueLabel) && err == nil && len(edge.to.weights) != 0 ==> (forall k string :: has(edge.weights, k) <==> has(edge.to.weights, k))
 //@   ensures hop_added: old(edge.from.uniqueLabel) != old(edge.to.uniqueLabel) && err == nil && len(edge.to.weights) != 0 ==> (forall k string :: has(edge.weights, k)
 //@                              ==> edge.weights[k] == ite(weightHop(edge) && edge.to.weights[k] != Infinite, edge.to.weights[k] + 1, edge.to.weights[k]))
-//@   loop 1 invariant inv_linked: linked(wg) && wg.edges != tupleCycleDependencies && edge != nil && edge.from != nil && wg.nodes[edge.from.uniqueLabel] != nil
+//@   loop 1 invariant args: wg.edges != tupleCycleDependencies && edge != nil && edge.from != nil && wg.nodes[edge.from.uniqueLabel] != nil
+//@   loop 1 invariant graph_elems_kept: forall k string, i int :: 0 <= i && i < len(wg.edges[k]) ==> wg.edges[k][i] == old(wg.edges[k][i])
 //@   loop 1 invariant edge_lists_kept: forall k string :: wg.edges[k] == old(wg.edges[k])
 //@   loop 1 invariant inv_deps_ed: sepED(wg, tupleCycleDependencies)
-//@   loop 2 invariant inv_linked: linked(wg) && wg.edges != tupleCycleDependencies && edge != nil && edge.from != nil && wg.nodes[edge.from.uniqueLabel] != nil
+//@   loop 1 invariant path_sep: pathSep(wg, tupleCycleDependencies, old(ancestorPath))
+//@   loop 1 invariant inv_deps_sep: sepDeps(tupleCycleDependencies)
+//@   loop 1 invariant closed_deps: forall a string :: arr(tupleCycleDependencies[a]) == 0 || allocated(arr(tupleCycleDependencies[a]))
+//@   loop 1 invariant path_kept: forall i int :: 0 <= i && i < len(old(ancestorPath)) ==> old(ancestorPath)[i] == old(ancestorPath[i])
+//@   loop 1 invariant foreign_kept: forall s []*WeightedAuthorizationModelEdge, i int :: isold(s) && arr(s) != 0 && arr(s) != arr(old(ancestorPath)) && (forall b string :: arr(s) != arr(old(tupleCycleDependencies[b]))) ==> s[i] == old(s[i])
+//@   loop 1 invariant foreign: forall s []*WeightedAuthorizationModelEdge :: isold(s) && arr(s) != 0 && (forall b string :: arr(s) != arr(old(tupleCycleDependencies[b]))) ==> (forall a string :: arr(s) != arr(tupleCycleDependencies[a]))
+//@   loop 2 invariant args: wg.edges != tupleCycleDependencies && edge != nil && edge.from != nil && wg.nodes[edge.from.uniqueLabel] != nil
+//@   loop 2 invariant graph_elems_kept: forall k string, i int :: 0 <= i && i < len(wg.edges[k]) ==> wg.edges[k][i] == old(wg.edges[k][i])
 //@   loop 2 invariant edge_lists_kept: forall k string :: wg.edges[k] == old(wg.edges[k])
 //@   loop 2 invariant inv_deps_ed: sepED(wg, tupleCycleDependencies)
-//@   loop 3 invariant inv_linked: linked(wg) && wg.edges != tupleCycleDependencies && edge != nil && edge.from != nil && wg.nodes[edge.from.uniqueLabel] != nil
-//@   loop 3 invariant edge_lists_kept: forall k string :: wg.edges[k] == old(wg.edges[k])
-//@   loop 3 invariant inv_deps_ed: sepED(wg, tupleCycleDependencies)
+//@   loop 2 invariant path_sep: pathSep(wg, tupleCycleDependencies, old(ancestorPath))
+//@   loop 2 invariant inv_deps_sep: sepDeps(tupleCycleDependencies)
+//@   loop 2 invariant closed_deps: forall a string :: arr(tupleCycleDependencies[a]) == 0 || allocated(arr(tupleCycleDependencies[a]))
+//@   loop 2 invariant path_kept: forall i int :: 0 <= i && i < len(old(ancestorPath)) ==> old(ancestorPath)[i] == old(ancestorPath[i])
+//@   loop 2 invariant foreign_kept: forall s []*WeightedAuthorizationModelEdge, i int :: isold(s) && arr(s) != 0 && arr(s) != arr(old(ancestorPath)) && (forall b string :: arr(s) != arr(old(tupleCycleDependencies[b]))) ==> s[i] == old(s[i])
+//@   loop 2 invariant foreign: forall s []*WeightedAuthorizationModelEdge :: isold(s) && arr(s) != 0 && (forall b string :: arr(s) != arr(old(tupleCycleDependencies[b]))) ==> (forall a string :: arr(s) != arr(tupleCycleDependencies[a]))
 //@   loop 2 invariant fresh(weights) && weights != nil && edge.to != nil && edge.from != nil
 //@   loop 2 invariant forall k string :: has(weights, k) <==> $visited[k]
 //@   loop 2 invariant forall k string :: $visited[k] ==> has(edge.to.weights, k) && weights[k] == edge.to.weights[k]
@@ -768,15 +789,18 @@ var _ *openfgav1.Userset
 //@   (forall b string :: arr(p) != 0 ==> arr(p) != arr(wg.edges[b]) && arr(p) != arr(m[b]))
 
 //@ func (*WeightedAuthorizationModelGraph).calculateNodeWeight
-//@   props C05 C08 C04
+//@   props C05 C08 C04 C11 C06
 //@   closed_alloc
 //@   requires wg != nil && wg.nodes[nodeID] != nil && visited != nil && tupleCycleDependencies != nil && wg.edges != tupleCycleDependencies
 //@   requires path: wfPath(ancestorPath)
 //@   requires path_sep: pathSep(wg, tupleCycleDependencies, ancestorPath)
 //@   requires inv_linked: linked(wg)
 //@   requires inv_deps: depsWf(wg, tupleCycleDependencies) && sepDeps(tupleCycleDependencies) && sepED(wg, tupleCycleDependencies)
-//@   requires inv_wild: sepWildcards()
+//@   requires inv_wild_nn: sepWildcardsNN()
+//@   requires inv_wild_ne: sepWildcardsNE()
+//@   requires inv_wild_ee: sepWildcardsEE()
 //@   requires inv_range: inRangeE() && inRangeN()
+//@   requires closed_deps: forall a string :: arr(tupleCycleDependencies[a]) == 0 || allocated(arr(tupleCycleDependencies[a]))
 //@   ensures error_is_sentinel: err != nil ==> wraps(err, ErrModelCycle) || wraps(err, ErrTupleCycle) || wraps(err, ErrInvalidModel)
 //@   -- frame needed by calculateEdgeWeight (the descent appends to copies of the path, it never overwrites an element within its length,
 //@   -- and it never writes the from/to fields of an edge)
@@ -792,8 +816,14 @@ var _ *openfgav1.Userset
 //@   ensures inv_range_n: err == nil ==> inRangeN()
 //@   ensures path_sep_kept: pathSep(wg, tupleCycleDependencies, ancestorPath)
 //@   ensures edge_lists_kept: forall k string :: wg.edges[k] == old(wg.edges[k])
+//@   ensures graph_elems_kept: forall k string, i int :: 0 <= i && i < len(wg.edges[k]) ==> wg.edges[k][i] == old(wg.edges[k][i])
+//@   ensures closed_deps: forall a string :: arr(tupleCycleDependencies[a]) == 0 || allocated(arr(tupleCycleDependencies[a]))
+//@   ensures foreign_kept: forall s []*WeightedAuthorizationModelEdge, i int :: isold(s) && arr(s) != 0 && arr(s) != arr(old(ancestorPath)) && (forall b string :: arr(s) != arr(old(tupleCycleDependencies[b]))) ==> s[i] == old(s[i])
+//@   ensures foreign: forall s []*WeightedAuthorizationModelEdge :: isold(s) && arr(s) != 0 && (forall b string :: arr(s) != arr(old(tupleCycleDependencies[b]))) ==> (forall a string :: arr(s) != arr(tupleCycleDependencies[a]))
 //@   loop 1 invariant inv_linked: linked(wg) && wg.nodes[nodeID] != nil
-//@   loop 1 invariant inv_wild: sepWildcards()
+//@   loop 1 invariant inv_wild_nn: sepWildcardsNN()
+//@   loop 1 invariant inv_wild_ne: sepWildcardsNE()
+//@   loop 1 invariant inv_wild_ee: sepWildcardsEE()
 //@   loop 1 invariant inv_deps_wf: depsWf(wg, tupleCycleDependencies)
 //@   loop 1 invariant inv_deps_sep: sepDeps(tupleCycleDependencies)
 //@   loop 1 invariant inv_deps_ed: sepED(wg, tupleCycleDependencies)
@@ -803,6 +833,10 @@ var _ *openfgav1.Userset
 //@   loop 1 invariant path_sep: pathSep(wg, tupleCycleDependencies, ancestorPath)
 //@   loop 1 invariant path_kept: forall i int :: 0 <= i && i < len(ancestorPath) ==> ancestorPath[i] == old(ancestorPath[i])
 //@   loop 1 invariant edges_kept: forall k string :: wg.edges[k] == old(wg.edges[k])
+//@   loop 1 invariant graph_elems_kept: forall k string, i int :: 0 <= i && i < len(wg.edges[k]) ==> wg.edges[k][i] == old(wg.edges[k][i])
+//@   loop 1 invariant closed_deps: forall a string :: arr(tupleCycleDependencies[a]) == 0 || allocated(arr(tupleCycleDependencies[a]))
+//@   loop 1 invariant foreign_kept: forall s []*WeightedAuthorizationModelEdge, i int :: isold(s) && arr(s) != 0 && arr(s) != arr(old(ancestorPath)) && (forall b string :: arr(s) != arr(old(tupleCycleDependencies[b]))) ==> s[i] == old(s[i])
+//@   loop 1 invariant foreign: forall s []*WeightedAuthorizationModelEdge :: isold(s) && arr(s) != 0 && (forall b string :: arr(s) != arr(old(tupleCycleDependencies[b]))) ==> (forall a string :: arr(s) != arr(tupleCycleDependencies[a]))
 
 // AssignWeights starts the descent at every node of the graph (in map order: the loop is proved for every order). Its
 // preconditions are the representation invariant of a graph as the builder leaves it.
@@ -825,6 +859,7 @@ var _ *openfgav1.Userset
 //@   loop 1 invariant inv_deps_ed: sepED(wg, tupleCycleDependencies)
 //@   loop 1 invariant inv_range_e: inRangeE()
 //@   loop 1 invariant inv_range_n: inRangeN()
+//@   loop 1 invariant closed_deps: forall a string :: arr(tupleCycleDependencies[a]) == 0 || allocated(arr(tupleCycleDependencies[a]))
 //@   ensures error_is_sentinel: err != nil ==> wraps(err, ErrModelCycle) || wraps(err, ErrTupleCycle) || wraps(err, ErrInvalidModel)
 
 //@ func (*WeightedAuthorizationModelGraphBuilder).Build
